@@ -22,7 +22,8 @@ RULE = ("(a) Optimiser level: Hypothesis draws (N,W) with NW<=24, a PSD covarian
         "to end: runs with sensor scales 10^-6..10^6, clusters smaller than NW, duplicated rows and constant sensors; every MRF "
         "finite/symmetric/PD, every float field of the result and every emitted cost table finite. Non-trivial = condition "
         "number of S > 1e6 or rank(S) < NW or the floor removed at least one entry; distinct by SHA-1 of the case."
-        " End to end with a requested floor (1e-4..0.2, both front ends, sometimes after the same run with another floor): every MRF stored by an optimise phase is the floor-filtered image of a matrix the optimiser returned in that round, judged by the caller's floor.")
+        " End to end with a requested floor (1e-4..0.2, both front ends, sometimes after the same run with another floor): every MRF stored by an optimise phase is the floor-filtered image of a matrix the optimiser returned in that round, judged by the caller's floor."
+        ' Pinned optimiser cases with NW = 130, 150, 256.')
 ASSUMPTIONS = ["a run that raises does not complete and is outside clause (c) (counted as discarded)",
                "optimiser-level inputs are symmetric PSD matrices built as sample covariances of finite data"]
 
@@ -82,7 +83,8 @@ def execute_opt(case, t):
     S = make_cov(case)
     n = case["N"] * case["W"]
     try:
-        res = admm.admm_optimize_theta(S, case["lam"], case["W"], case["N"])
+        kw = {"max_iterations": case["max_iterations"]} if case.get("max_iterations") else {}
+        res = admm.admm_optimize_theta(S, case["lam"], case["W"], case["N"], **kw)
     except Exception as e:
         raise Violation(f"optimiser raised {type(e).__name__}: {e} on a finite PSD covariance (N={case['N']}, W={case['W']}, "
                         f"diag from {np.min(np.diag(S)):.3g} to {np.max(np.diag(S)):.3g})")
@@ -298,7 +300,12 @@ def execute_floor_e2e(case, t):
 
 
 def _pinned_opt():
-    return [{"N": 2, "W": 1, "seed": 1, "samples": 30, "log_std": [0.7, 5.7], "duplicate": False, "constant": [], "lam": 0.11, "biased": False},
+    # matrices beyond 128 and 255 rows (a few solver steps are enough: every iterate the solver hands back is PD): index tables
+    # held in a narrow integer type wrap there
+    big = [{"N": 13, "W": 10, "seed": 4, "samples": 300, "log_std": [0.0] * 13, "duplicate": False, "constant": [], "lam": 0.11, "biased": False, "max_iterations": 3},
+           {"N": 16, "W": 16, "seed": 5, "samples": 600, "log_std": [0.3] * 16, "duplicate": False, "constant": [], "lam": 0.5, "biased": True, "max_iterations": 2},
+           {"N": 3, "W": 50, "seed": 6, "samples": 40, "log_std": [0.0, 1.0, -1.0], "duplicate": False, "constant": [], "lam": 0.11, "biased": False, "max_iterations": 3}]
+    return big + [{"N": 2, "W": 1, "seed": 1, "samples": 30, "log_std": [0.7, 5.7], "duplicate": False, "constant": [], "lam": 0.11, "biased": False},
             {"N": 3, "W": 2, "seed": 2, "samples": 1, "log_std": [6.0, -6.0, 0.0], "duplicate": False, "constant": [], "lam": 0.0, "biased": True},
             {"N": 2, "W": 3, "seed": 3, "samples": 4, "log_std": [6.0, 6.0], "duplicate": True, "constant": [1], "lam": 1.0, "biased": False}]
 
